@@ -281,6 +281,8 @@ class PWrap(Pattern):
         max = Pattern.value(self.max)
         if value is None:
             return None
+        if max <= min:
+            raise ValueError("PWrap: max (%s) must be greater than min (%s)" % (max, min))
         while value < min:
             value += max - min
         while value >= max:
